@@ -31,7 +31,7 @@ class C14(Prop):
     verdict = "History.verdict"
     shard = 25
     allow_nonfinite = True          # infinite upper bounds are legitimate registered values
-    rule = ("histories over {register_system (2 systems), register_bounds, register_adaptation (scalar/vector/matrix), register_baseline (scalar/vector), "
+    rule = ("histories over {register_system (3 systems, one of them measured on its own sub-grid of a uniform filter grid), register_bounds, register_adaptation (scalar/vector/matrix), register_baseline (scalar/vector), "
             "register_background_adaptation and register_system_adaptation (add_baseline x add), register_targets, fit(), query}: EXHAUSTIVE over all ordered pairs of pool "
             "operations after a system registration (quick; all triples in the thorough tier) plus random histories of length 4-10; after EVERY step the registered values and "
             "two capture probes are compared with the Coq state machine, every read-only query is asked twice (purity), caller arrays are hashed before/after, and a fresh twin "
@@ -45,14 +45,18 @@ class C14(Prop):
         return 0
 
     # ---- pools ----
-    def make_pool(self, rng):
+    DOMS = [1.0, 2.0, [300.0, 310.0, 325.0, 340.0, 350.0, 365.0], [300.0, 310.0, 320.0, 330.0, 340.0, 350.0]]
+
+    def make_pool(self, rng, dom=None):
         m = 3; nd = 6
         F = [[dyad(rng, 0, 2, 8) + (1.0 if abs(j - 2 * i) <= 1 else 0.0) for j in range(nd)] for i in range(m)]
         S1 = [[dyad(rng, 0, 2, 8) + (1.0 if j == k else 0.0) for j in range(nd)] for k in range(4)]
         S2 = [[dyad(rng, 0, 2, 8) + (1.0 if j == 2 * k else 0.0) for j in range(nd)] for k in range(3)]
         pool = {
-            "F": F, "dom": rng.choice([1.0, 2.0, [300.0, 310.0, 325.0, 340.0, 350.0, 365.0]]),
-            "systems": [{"S": S1, "lb": None, "ub": [4.0, 5.0, 6.0, 4.5]}, {"S": S2, "lb": [0.25, 0.0, 0.5], "ub": None}],
+            "F": F, "dom": dom if dom is not None else rng.choice(self.DOMS),
+            # system 2 is measured on its OWN wavelength grid (the interior samples of a uniform filter grid; on other filter domains it is an ordinary system)
+            "systems": [{"S": S1, "lb": None, "ub": [4.0, 5.0, 6.0, 4.5]}, {"S": S2, "lb": [0.25, 0.0, 0.5], "ub": None},
+                        {"S": [[dyad(rng, 0, 2, 8) + (1.0 if j == k + 1 else 0.0) for j in range(nd)] for k in range(3)], "lb": None, "ub": [3.0, 4.0, 5.0], "sub": True}],
             "Ks": [2.0, [0.5, 1.5, 0.75], [[1.0, 0.125, 0.0], [0.0, 1.0, -0.125], [0.0625, 0.0, 1.0]]],
             "bases": [0.5, [1.0, 0.0, 2.0]],
             "bgs": [[dyad(rng, 1, 4, 8) for _ in range(nd)], [dyad(rng, 1, 4, 8) for _ in range(nd)]],
@@ -61,25 +65,29 @@ class C14(Prop):
         return pool
 
     def op_pool(self):
-        ops = [("system", 0), ("system", 1), ("bounds", "ub"), ("bounds", "lb"), ("bounds", "both"),
+        ops = [("system", 0), ("system", 1), ("system", 2), ("bounds", "ub"), ("bounds", "lb"), ("bounds", "both"),
                ("adapt", 0), ("adapt", 1), ("adapt", 2), ("baseline", 0), ("baseline", 1),
                ("background", 0, True, False), ("background", 1, False, False), ("background", 0, True, True),
                ("sysadapt", True, False), ("sysadapt", False, True), ("targets", False), ("targets", True), ("fit",), ("query",)]
         return ops
 
     def gen(self, rng, n_unused, tier):
-        pool = self.make_pool(rng)
+        # one pool per kind of filter domain (scalar steps, non-uniform grid, uniform grid); histories are spread over them,
+        # those that register the sub-grid system always run on the uniform grid (elsewhere it is an ordinary system)
+        pools = [self.make_pool(rng, d) for d in self.DOMS]
         ops = self.op_pool()
         hists = []
         L = 2 if tier == "quick" else 3
         for combo in itertools.product(ops, repeat=L):
             hists.append([("system", 0)] + list(combo))
         for _ in range(60 if tier == "quick" else 600):
-            hists.append([("system", rng.randrange(2))] + [rng.choice(ops) for _ in range(rng.randint(3, 9))])
+            hists.append([("system", rng.randrange(3))] + [rng.choice(ops) for _ in range(rng.randint(3, 9))])
         cases = []
-        for h in hists:
+        off = rng.randrange(len(pools))
+        for i, h in enumerate(hists):
+            pool = pools[3] if any(tuple(o) == ("system", 2) for o in h) else pools[(i + off) % len(pools)]
             cases.append({"pool": pool, "hist": [list(o) for o in h], "seed": rng.randint(0, 10**6),
-                          "kind": "len%d" % len(h)})
+                          "kind": "len%d/%s" % (len(h), "step" if not isinstance(pool["dom"], list) else ("uniform" if len(set(np.diff(pool["dom"]))) == 1 else "nonuniform"))})
         return cases
 
     # ---- running a history on the real object ----
@@ -92,6 +100,7 @@ class C14(Prop):
         rs = np.random.default_rng(case["seed"])
         steps, concrete = [], []
         problems = []
+        last_sys = {"args": None}
         sig = np.array(pool["probe_sig"])
 
         def call(fn, *arrs, **kw):
@@ -109,8 +118,19 @@ class C14(Prop):
             if kind == "system":
                 sysd = pool["systems"][o[1]]
                 S = np.array(sysd["S"]); lb = None if sysd["lb"] is None else np.array(sysd["lb"]); ub = None if sysd["ub"] is None else np.array(sysd["ub"])
-                call(est.register_system, S, lb=lb, ub=ub)
-                rec.update(S=S.tolist(), lb=None if lb is None else lb.tolist(), ub=None if ub is None else ub.tolist())
+                sub = bool(sysd.get("sub")) and isinstance(pool["dom"], list) and len(set(np.diff(pool["dom"]))) == 1
+                if sub:
+                    # sources given on the interior samples of the filter grid: A is the trapezoid integral over THAT grid, which equals the integral
+                    # over the full grid of the zero-padded sources with their two end samples halved (exactly); the filters stay as registered
+                    d2 = np.array(pool["dom"])[1:-1]; S2_ = S[:, 1:-1].copy()
+                    call(est.register_system, S2_, lb=lb, ub=ub, domain=d2)
+                    Seq = np.zeros_like(S); Seq[:, 1:-1] = S2_; Seq[:, 1] *= 0.5; Seq[:, -2] *= 0.5
+                    last_sys["args"] = (S2_, d2)
+                    rec.update(S=Seq.tolist(), lb=None if lb is None else lb.tolist(), ub=None if ub is None else ub.tolist())
+                else:
+                    call(est.register_system, S, lb=lb, ub=ub)
+                    last_sys["args"] = (S, None)
+                    rec.update(S=S.tolist(), lb=None if lb is None else lb.tolist(), ub=None if ub is None else ub.tolist())
             elif kind == "bounds":
                 lb = (np.array([0.125 * (i + 1) for i in range(n_cur)]) if o[1] in ("lb", "both") else None)
                 ub = (np.array([3.0 + 0.5 * i for i in range(n_cur)]) if o[1] in ("ub", "both") else None)
@@ -189,18 +209,21 @@ class C14(Prop):
             steps.append(rec)
         # twin: a fresh object registered from the current values must answer solver-backed queries identically
         try:
-            twin_bad = self.twin_compare(dreye, est, F, dom)
+            twin_bad = self.twin_compare(dreye, est, F, dom, last_sys["args"])
             if twin_bad:
                 problems.append(twin_bad)
         except Exception as e:  # noqa
             problems.append("twin comparison raised %s: %s" % (type(e).__name__, str(e)[:120]))
         return {"steps": steps, "problems": problems}
 
-    def twin_compare(self, dreye, est, F, dom):
+    def twin_compare(self, dreye, est, F, dom, sysargs=None):
         if not est.registered:
             return None
         tw = dreye.ReceptorEstimator(F, domain=dom, K=np.array(est.K), baseline=np.array(est.baseline))
-        tw.register_system(np.array(est.sources), lb=np.array(est.lb), ub=np.array(est.ub))
+        if sysargs is not None and sysargs[1] is not None:
+            tw.register_system(np.array(sysargs[0]), lb=np.array(est.lb), ub=np.array(est.ub), domain=np.array(sysargs[1]))
+        else:
+            tw.register_system(np.array(est.sources), lb=np.array(est.lb), ub=np.array(est.ub))
         if hasattr(est, "B"):
             # registered targets / per-sample weights are registered values too
             tw.register_targets(np.array(est.B), W=(None if est.W is est.w else np.array(est.W)))
